@@ -361,7 +361,7 @@ type VarCase struct {
 	N       int      `json:"n"`
 }
 
-var variants = []string{"canonical", "uncompressed", "hybrid", "flip-y", "truncate", "extend", "empty", "garbage", "wrong-codec", "pkix-for-rsa", "nonminimal-varint", "zero-x", "full-point-off-curve", "full-point-constant", "compressed-off-curve"}
+var variants = []string{"canonical", "uncompressed", "hybrid", "flip-y", "truncate", "extend", "empty", "garbage", "wrong-codec", "pkix-for-rsa", "nonminimal-varint", "zero-x", "full-point-off-curve", "full-point-constant", "compressed-off-curve", "rsa-der", "x-plus-p", "small-x"}
 
 func point(alg keys.Alg, pub crypto.PubKey) (elliptic.Curve, *big.Int, *big.Int, bool) {
 	switch alg {
@@ -469,6 +469,41 @@ func buildVariant(vc VarCase) (s string, code uint64, payload []byte, sameKey bo
 			return "", 0, nil, false, false
 		}
 		payload, _ = k.Pub.Raw() // PKIX instead of PKCS#1
+	case "rsa-der":
+		// the same modulus and exponent in another DER/BER spelling: one principal must not gain a second identifier
+		if vc.Alg != keys.RSA {
+			return "", 0, nil, false, false
+		}
+		payload = rsaDerVariant(canon, vc.N)
+		if payload == nil {
+			return "", 0, nil, false, false
+		}
+	case "x-plus-p", "small-x":
+		// a compressed point whose x bytes hold x+p (the same residue, a second spelling), either of the key itself
+		// when x+p still fits the coordinate width (always for P-521) or of the first curve point with a small x;
+		// "small-x" is the control: that small point in its one canonical spelling.
+		if !isPoint {
+			return "", 0, nil, false, false
+		}
+		fp := curve.Params().P
+		w := len(canon) - 1
+		limit := new(big.Int).Lsh(big.NewInt(1), uint(8*w))
+		xx, form := new(big.Int).Set(x), canon[0]
+		if vc.Variant == "small-x" || new(big.Int).Add(xx, fp).Cmp(limit) >= 0 || vc.N%2 == 1 {
+			xx = big.NewInt(int64(1 + vc.N/4%40))
+			for !hasY(curve, xx) {
+				xx.Add(xx, big.NewInt(1))
+			}
+			form = 2 + byte(vc.N/2%2)
+		}
+		if vc.Variant == "x-plus-p" {
+			xx.Add(xx, fp)
+			if xx.Cmp(limit) >= 0 {
+				return "", 0, nil, false, false
+			}
+		}
+		payload = append([]byte{form}, xx.FillBytes(make([]byte, w))...)
+		sameKey = false
 	case "nonminimal-varint":
 		v := uvarint(code)
 		v[len(v)-1] |= 0x80
@@ -478,8 +513,145 @@ func buildVariant(vc VarCase) (s string, code uint64, payload []byte, sameKey bo
 	return didString(code, payload), code, payload, sameKey, true
 }
 
+// hasY: x^3 + ax + b is a square modulo the field prime (a = -3 for the NIST curves, 0 for secp256k1).
+func hasY(curve elliptic.Curve, x *big.Int) bool {
+	pr := curve.Params()
+	y2 := new(big.Int).Exp(x, big.NewInt(3), pr.P)
+	if pr.Name != "secp256k1" {
+		y2.Sub(y2, new(big.Int).Mul(big.NewInt(3), x))
+	}
+	y2.Add(y2, pr.B)
+	y2.Mod(y2, pr.P)
+	return new(big.Int).ModSqrt(y2, pr.P) != nil
+}
+
+// refPointCanonical: the one spelling a compressed point has: form byte 2 or 3, exactly the coordinate width, x below
+// the field prime and on the curve. Independent of the did package and of the curve libraries' parsers.
+func refPointCanonical(code uint64, payload []byte) (canonical, known bool) {
+	var curve elliptic.Curve
+	switch code {
+	case cSecp256k1:
+		curve = secp.S256()
+	case cP256:
+		curve = elliptic.P256()
+	case cP384:
+		curve = elliptic.P384()
+	case cP521:
+		curve = elliptic.P521()
+	default:
+		return false, false
+	}
+	w := (curve.Params().BitSize + 7) / 8
+	if len(payload) != 1+w || (payload[0] != 2 && payload[0] != 3) {
+		return false, true
+	}
+	x := new(big.Int).SetBytes(payload[1:])
+	if x.Cmp(curve.Params().P) >= 0 {
+		return false, true
+	}
+	return hasY(curve, x), true
+}
+
+func derLen(n int) []byte {
+	switch {
+	case n < 0x80:
+		return []byte{byte(n)}
+	case n < 0x100:
+		return []byte{0x81, byte(n)}
+	default:
+		return []byte{0x82, byte(n >> 8), byte(n)}
+	}
+}
+
+func derTLV(tag byte, body []byte) []byte {
+	return append(append([]byte{tag}, derLen(len(body))...), body...)
+}
+
+// rsaDerVariant re-spells SEQUENCE{INTEGER n, INTEGER e}; nil when the canonical form is not what it expects.
+func rsaDerVariant(canon []byte, n int) []byte {
+	rd := func(b []byte) (tag byte, body, rest []byte, ok bool) {
+		if len(b) < 2 {
+			return
+		}
+		tag = b[0]
+		l, hl := int(b[1]), 2
+		if b[1]&0x80 != 0 {
+			k := int(b[1] & 0x7f)
+			if k == 0 || k > 2 || len(b) < 2+k {
+				return
+			}
+			l = 0
+			for i := 0; i < k; i++ {
+				l = l<<8 | int(b[2+i])
+			}
+			hl = 2 + k
+		}
+		if len(b) < hl+l {
+			return
+		}
+		return tag, b[hl : hl+l], b[hl+l:], true
+	}
+	tag, seq, rest, ok := rd(canon)
+	if !ok || tag != 0x30 || len(rest) != 0 {
+		return nil
+	}
+	t1, mod, r1, ok1 := rd(seq)
+	t2, exp, r2, ok2 := rd(r1)
+	if !ok1 || !ok2 || t1 != 2 || t2 != 2 || len(r2) != 0 {
+		return nil
+	}
+	cat := func(bs ...[]byte) []byte { return bytes.Join(bs, nil) }
+	im, ie := derTLV(2, mod), derTLV(2, exp)
+	longLen := func(tag byte, body []byte) []byte { // length in one more byte than needed
+		l := derLen(len(body))
+		if l[0]&0x80 == 0 {
+			l = []byte{0x81, l[0]}
+		} else {
+			l = append([]byte{l[0] + 1, 0}, l[1:]...)
+		}
+		return append(append([]byte{tag}, l...), body...)
+	}
+	switch n % 16 {
+	case 0: // a third element: INTEGER 0
+		return derTLV(0x30, cat(im, ie, []byte{2, 1, 0}))
+	case 1: // a third element: NULL
+		return derTLV(0x30, cat(im, ie, []byte{5, 0}))
+	case 2: // a third element: an OCTET STRING of 1..64 bytes
+		return derTLV(0x30, cat(im, ie, derTLV(4, bytes.Repeat([]byte{0xab}, 1+n/16%64))))
+	case 3: // a third element: the other fields of a PKCS#1 private key, zeroed
+		return derTLV(0x30, cat(im, ie, []byte{2, 1, 0, 2, 1, 0, 2, 1, 0}))
+	case 4: // the sequence length spelled with one byte more
+		return longLen(0x30, seq)
+	case 5: // the modulus length spelled with one byte more
+		return derTLV(0x30, cat(longLen(2, mod), ie))
+	case 6: // the exponent length spelled with one byte more
+		return derTLV(0x30, cat(im, longLen(2, exp)))
+	case 7: // the modulus with one more leading zero byte
+		return derTLV(0x30, cat(derTLV(2, append([]byte{0}, mod...)), ie))
+	case 8: // the exponent with a leading zero byte
+		return derTLV(0x30, cat(im, derTLV(2, append([]byte{0}, exp...))))
+	case 9: // indefinite length
+		return cat([]byte{0x30, 0x80}, im, ie, []byte{0, 0})
+	case 10: // the key wrapped in one more sequence
+		return derTLV(0x30, canon)
+	case 11: // trailing element that is not even well formed
+		return derTLV(0x30, cat(im, ie, []byte{0xff}))
+	case 12: // the modulus without its sign byte (reads as a negative number)
+		if len(mod) > 1 && mod[0] == 0 {
+			return derTLV(0x30, cat(derTLV(2, mod[1:]), ie))
+		}
+		return nil
+	case 13: // a SET instead of a SEQUENCE
+		return derTLV(0x31, seq)
+	case 14: // exponent and modulus swapped
+		return derTLV(0x30, cat(ie, im))
+	default: // a leading version INTEGER 0, as in the private-key structure
+		return derTLV(0x30, cat([]byte{2, 1, 0}, im, ie))
+	}
+}
+
 func runVariant(c *h.Ctx, vc VarCase) {
-	s, code, _, _, ok := buildVariant(vc)
+	s, code, payload, _, ok := buildVariant(vc)
 	if !ok {
 		return
 	}
@@ -522,6 +694,12 @@ func runVariant(c *h.Ctx, vc VarCase) {
 			same := pk.Equals(k.Pub)
 			c.Fail("C16/canonical/alias/"+vc.Variant+"/"+string(vc.Alg), "identifier %s (%s of a %s key) is accepted and yields a key (same as original: %v) whose canonical DID is %s: two identifiers for one principal", s, vc.Variant, vc.Alg, same, canon)
 		}
+		// the same, decided without the library's own re-encoding: a point has exactly one compressed spelling
+		if canonical, known := refPointCanonical(code, payload); known && !canonical {
+			c.Fail("C16/canonical/alias-point/"+vc.Variant+"/"+string(vc.Alg), "identifier %s (%s of a %s key) yields a key although its key bytes are not the one compressed spelling of a curve point (form 2/3, x below the field prime, on the curve)", s, vc.Variant, vc.Alg)
+		}
+	} else if vc.Variant == "small-x" {
+		c.Fail("C16/roundtrip/pubkey-error/small-x/"+string(vc.Alg), "the canonical identifier %s of a curve point with a small x yields no key: %v", s, err)
 	}
 	outcome := "key"
 	if err != nil {
@@ -549,6 +727,12 @@ func TestVariantsEnumerated(t *testing.T) {
 				ns = nil
 				for n := 0; n < 48; n++ {
 					ns = append(ns, n, 100+7*n)
+				}
+			}
+			if v == "rsa-der" || v == "x-plus-p" || v == "small-x" {
+				ns = nil
+				for n := 0; n < 160; n++ {
+					ns = append(ns, n)
 				}
 			}
 			if v == "truncate" {
